@@ -20,6 +20,7 @@ class; nothing about CSS meaning is assumed.  Oracle clauses:
 from __future__ import annotations
 
 import collections
+import threading
 import copy
 import json  # noqa: F401
 import os
@@ -264,6 +265,7 @@ class Machine:
         self.F = []
         self.violations = []
         self.probes = collections.Counter()
+        self.shared_maps = {}
         self.doc = gen.build_doc(FIXED_DOC)
         from sim import fingerprint
         self.doc_els, self.doc_idx = fingerprint.index_doc(self.doc)
@@ -334,9 +336,20 @@ class Machine:
                 self.violate('5-immutable', detail=f'object of key {k} changed (fingerprint or hash)', key=k, at=where)
 
     # -- operations -------------------------------------------------------------
-    def _compile(self, k, scribble=None):
+    def _compile(self, k, scribble=None, shared=False):
         key = self.keys[k]
         kw = key_call_args(key)
+        if shared:
+            # the caller keeps ONE namespaces dict and ONE custom dict (module-level maps it updates as it goes) and
+            # passes the same objects on every call: same identity, whatever content this key asks for
+            with sched.untraced():
+                for name in ('namespaces', 'custom'):
+                    if type(kw.get(name)) is dict:
+                        d = self.shared_maps.setdefault((name, threading.get_ident()), {})   # one caller = one thread
+                        d.clear()
+                        d.update(kw[name])
+                        kw[name] = d
+                        self.probes['caller_passed_the_same_map_object_again'] += 1
         o = self.sv.compile(key['pattern'], **kw)
         if scribble is not None:
             # the caller goes on using (and changing) the maps it passed in: a compiled selector is a value and must
@@ -380,7 +393,7 @@ class Machine:
                 sys.setrecursionlimit(_depth() + lim)
             try:
                 with sched.traced():
-                    o = self._compile(k, op.get('scribble'))
+                    o = self._compile(k, op.get('scribble'), bool(op.get('shared')))
             finally:
                 if old_limit is not None:
                     sys.setrecursionlimit(old_limit)
@@ -799,6 +812,8 @@ def gen_history(rng, nkeys, length, mode):
             ops_.append({'op': 'compile', 'key': rng.randrange(nkeys)})
             if rng.random() < 0.25:
                 ops_[-1]['scribble'] = rng.randrange(12)
+            if rng.random() < 0.3:
+                ops_[-1]['shared'] = True
         elif r < 0.54:
             ops_.append({'op': 'purge'})
         elif r < 0.60:
